@@ -99,6 +99,10 @@ func NewContext() *Context {
 // NewContextWith returns a fully formed context using the data
 // provided.
 func NewContextWith(data map[string]interface{}) *Context {
+	if data == nil {
+		data = map[string]interface{}{}
+	}
+
 	c := &Context{
 		Context: context.Background(),
 		data:    data,
